@@ -11,10 +11,12 @@ use crate::model::{self, ModelOpts};
 use crate::props::{c02, c03, c05, c06, c08, c09, c10, c14};
 use crate::run::{build, Outcome};
 use crate::decode::{self, Cur};
+use crate::isa::{self, Core, Verdict};
+use crate::oracle::Check;
 use std::sync::OnceLock;
 
 pub const TARGETS: &[(&str, &str)] =
-    &[("raw", "C16"), ("expr", "C05"), ("style", "C14"), ("layout", "C02"), ("rel", "C03"), ("data", "C06"), ("cond", "C08"), ("macro", "C09"), ("syms", "C10")];
+    &[("raw", "C16"), ("expr", "C05"), ("style", "C14"), ("layout", "C02"), ("rel", "C03"), ("data", "C06"), ("cond", "C08"), ("macro", "C09"), ("syms", "C10"), ("instr", "C04"), ("gate", "C13")];
 
 pub fn property_of(target: &str) -> Option<&'static str> {
     TARGETS.iter().find(|(t, _)| *t == target).map(|(_, p)| *p)
@@ -74,8 +76,61 @@ pub fn fuzz_one(target: &str, data: &[u8]) -> Result<(), Violation> {
             let c = decode::raw_syms(&mut Cur::new(data));
             judge("C10", c10::test(&c, &mut ev, &ModelOpts { devices: vec![] }))
         }
+        "instr" => judge("C04", instr_c04(&decode::instr_case(&mut Cur::new(data))).1),
+        "gate" => judge("C13", instr_c13(&decode::instr_case(&mut Cur::new(data))).map(|x| x.1).unwrap_or(Ok(()))),
         _ => Ok(()),
     }
+}
+
+/// C04 on a free-form instruction: default core, and (lds/sts only, as in the enumerated leg) a reduced core.
+pub fn instr_c04(c: &decode::InstrCase) -> (&'static str, Result<(), Violation>) {
+    let reduced = (c.m == "lds" || c.m == "sts") && c.dev & 1 == 1;
+    let core = if reduced { Core::Avr8l } else { Core::Full };
+    let src = c.source(if reduced { Some("ATtiny20") } else { None });
+    let verdict = isa::assemble(&c.m, &c.ops, core, c.pc as i64);
+    instr_verdict(c, &src, verdict, "c04:free")
+}
+
+/// C13 on a free-form instruction under a device of the tool's table; None = operands the ISA cannot
+/// encode at all (C04's business).
+pub fn instr_c13(c: &decode::InstrCase) -> Option<(&'static str, Result<(), Violation>)> {
+    static DEVS: OnceLock<Vec<crate::props::c13::Dev>> = OnceLock::new();
+    let devs = DEVS.get_or_init(crate::props::c13::devices);
+    if devs.is_empty() {
+        return None;
+    }
+    let dev = &devs[c.dev as usize % devs.len()];
+    let core = if dev.flags.iter().any(|f| f == "Avr8l") { Core::Avr8l } else { Core::Full };
+    let src = c.source(Some(&dev.name));
+    let gated = isa::gate(&dev.flags, &c.m, &c.ops);
+    let verdict = match isa::assemble(&c.m, &c.ops, core, c.pc as i64) {
+        Verdict::Illegal => return None,
+        _ if gated => Verdict::Illegal,
+        v => v,
+    };
+    let (class, r) = instr_verdict(c, &src, verdict, &format!("c13:free:{}", isa::gate_reason(&dev.flags, &c.m, &c.ops)));
+    Some((if gated { "gated" } else { class }, r))
+}
+
+fn instr_verdict(c: &decode::InstrCase, src: &str, verdict: Verdict, head: &str) -> (&'static str, Result<(), Violation>) {
+    let bytes = |w: &[u16]| -> Vec<u8> {
+        let mut b = vec![0u8; 2 * c.pc as usize];
+        b.extend(w.iter().flat_map(|x| [(*x & 0xff) as u8, (*x >> 8) as u8]));
+        b
+    };
+    let (chk, class) = match &verdict {
+        Verdict::Legal(w) => (Check::image_code(src.to_string(), bytes(w)), "legal"),
+        Verdict::Either(w) => (Check::FailOrImage { src: src.to_string(), code: bytes(w) }, "convention-dependent"),
+        Verdict::Illegal => (Check::MustFail { src: src.to_string(), token: None }, "illegal"),
+    };
+    let r = match chk.eval() {
+        Ok(()) => Ok(()),
+        Err(e) => {
+            let outcome = if e.contains("anic") { "panic" } else if class == "illegal" { "accepted" } else if e.contains("Err(") { "legal-rejected" } else { "misencoded" };
+            Err(Violation { sig: format!("{}:{}:{}", head, c.m, outcome), what: format!("`{}` ({}): {}", src.replace('\n', " | "), class, e), replay: chk.to_json() })
+        }
+    };
+    (class, r)
 }
 
 /// Entry used by the libFuzzer targets: abort (→ artifact) on a violation.
